@@ -184,6 +184,24 @@ def iter_tests(spec):
                 yield from walk(node, None, 1)
 
 
+def iter_units(spec):
+    """(module spec, unit node, layer short or None, level) for every class
+    that is run as a unit (vworld_rt.UnitEntry); the declaration on the node
+    itself is the nearest one.  iter_tests() does not know these nodes."""
+    for m in spec.get('modules', []):
+        def walk(node, layer, level):
+            if node.get('layer') is not None:
+                layer = node['layer']
+            if node.get('level') is not None:
+                level = node['level']
+            if node['t'] == 'unit':
+                yield (m, node, layer, level)
+            elif node['t'] == 'suite':
+                for ch in node.get('ch', []):
+                    yield from walk(ch, layer, level)
+        yield from walk(m['suite'], None, 1)
+
+
 def selected(patterns, name):
     """C08's algebraic spec."""
     pos = [p for p in patterns if not p.startswith('!')]
